@@ -42,7 +42,8 @@ Section Generic.
 Context {F : Type} `{NF : Num F}.
 
 (* ---- element-level quantization / dequantization functions ---------------------------------- *)
-Definition post (q : qtype) (d : F) : F :=
+Definition post (q : qtype) (d0 : F) : F :=
+  let d := n_nan_to_num d0 in
   n_cast (q_storage q)
     (n_clamp (n_of_Z (st_min (q_storage q))) (n_of_Z (st_max (q_storage q)))
        (if q_isfloat q then d else n_rint d)).
@@ -117,7 +118,7 @@ Proof.
   unfold sym_forward. intros H.
   destruct (q_isfloat q) eqn:Eq; cbn [negb] in H; inv_bind; subst r; cbn [qb_data qb_scale qb_qtype qb_size];
     eexists; (split; [reflexivity|]); repeat split;
-    unfold post, tf_cast, tf_clamp, tf_round, t_map; cbn [shape data]; rewrite ?map_map, Eq; reflexivity.
+    unfold post, tf_cast, tf_clamp, tf_round, tf_nan_to_num, t_map; cbn [shape data]; rewrite ?map_map, Eq; reflexivity.
 Qed.
 
 Lemma qbytes_dequantize_eq (t : qbytes F) : qbytes_dequantize t = tf_mul (qb_scale t) (qb_data t).
